@@ -130,6 +130,17 @@ inductive ArgRes
 
 def nilDerefMsg : Bytes := str "runtime error: invalid memory address or nil pointer dereference"
 
+/-- the `if !hasValue && argDef.DefaultValue != nil { … }` block followed by `if hasValue { result[…] = val }`,
+    entered without a value -/
+def argDefaultRes (vdefs : List VarDef) (vars : VarMap) (argDef : ArgDef) (result : GoFields) : ArgRes :=
+  match argDef.default with
+  | some d =>
+    match valueValue vdefs vars d with
+    | .ok x => .ok (result.set argDef.name x)
+    | .err e => .panic e.msg
+    | .diverge => .diverge
+  | none => .ok result
+
 /-- one iteration of the loop of `arg2map` -/
 def arg2mapStep (vdefs : List VarDef) (args : List Argument) (vars : VarMap) (argDef : ArgDef)
     (result : GoFields) : ArgRes :=
@@ -147,14 +158,7 @@ def arg2mapStep (vdefs : List VarDef) (args : List Argument) (vars : VarMap) (ar
   | .err e => .panic e.msg
   | .diverge => .diverge
   | .ok (some x) => .ok (result.set argDef.name x)
-  | .ok none =>
-    match argDef.default with
-    | some d =>
-      match valueValue vdefs vars d with
-      | .ok x => .ok (result.set argDef.name x)
-      | .err e => .panic e.msg
-      | .diverge => .diverge
-    | none => .ok result
+  | .ok none => argDefaultRes vdefs vars argDef result
 
 def arg2mapLoop (vdefs : List VarDef) (args : List Argument) (vars : VarMap) : List ArgDef → GoFields → ArgRes
   | [], result => .ok result
